@@ -165,6 +165,12 @@ pub fn grammar(max_n: usize) -> Grammar {
     leaves.push(Stmt::Render { name: Expr::s("p_pseudo"), form: RenderForm::Plain, args: vec![("x".into(), Expr::s("?")), ("y".into(), Expr::s("?"))] });
     leaves.push(Stmt::Render { name: Expr::s("p_pseudo"), form: RenderForm::With(Expr::var("y"), "x".into()), args: vec![] });
     leaves.push(Stmt::Include { name: Expr::s("p_pseudo"), args: vec![("x".into(), Expr::s("?"))] });
+    // identity arguments (`x: x`): still a call-site snapshot that masks the caller's variable inside the partial
+    for p in ["p_probe", "p_assign", "p_capture", "n_inc"] {
+        leaves.push(Stmt::Include { name: Expr::s(p), args: vec![("x".into(), Expr::var("x"))] });
+        leaves.push(Stmt::Include { name: Expr::s(p), args: vec![("y".into(), Expr::var("y"))] });
+        leaves.push(Stmt::Render { name: Expr::s(p), form: RenderForm::Plain, args: vec![("x".into(), Expr::var("x"))] });
+    }
     // arguments that read each other's names (swap): each is evaluated in the caller's scope, none sees a sibling
     leaves.push(Stmt::Include { name: Expr::s("p_probe"), args: vec![("x".into(), Expr::var("y")), ("y".into(), Expr::var("x"))] });
     leaves.push(Stmt::Render { name: Expr::s("p_probe"), form: RenderForm::Plain, args: vec![("x".into(), Expr::var("y")), ("y".into(), Expr::var("x"))] });
